@@ -87,6 +87,17 @@ def as_ints(a):
 
 
 def index_sets_(rng, m):
+    if m >= 4 and rng.random() < 0.12:
+        # a sorted bootstrap resample of lagged pairs: ascending index arrays with repeated snapshots (some repeated, as many left out:
+        # the length may equal the span)
+        lag = int(rng.integers(1, max(2, m // 3)))
+        base = np.arange(0, m - lag)
+        k = len(base)
+        pick = np.sort(rng.choice(base, size=k, replace=True))
+        if rng.random() < 0.5 and k >= 3:
+            pick[0], pick[-1] = base[0], base[-1]
+            pick = np.sort(pick)
+        return pick, pick + lag
     k = int(rng.integers(0, 3))
     if k == 0:
         lag = int(rng.integers(1, max(2, m // 2)))
